@@ -198,4 +198,5 @@ func runC01(c *run.Ctx) {
 	// requests answered, the hierarchy extended by later loads (no new type), the request judged over the final schema
 	stagedHierarchy(c, "c01", c.N(120, 2000))
 	c01Unbound(c, c.N(150, 4000))
+	petsRequests(c, "c01", c.N(200, 4000))
 }
